@@ -687,7 +687,8 @@ def flow_one(src, entry, sel, args):
     e = {'entry': entry, 'name': fname}
     res = refactor_flow.check_selection(src, e, sel, args, runs)
     res.update({'rec': 'case', 'entry': entry, 'sel': sel, 'covered': len(covered), 'need': len(need),
-                'old_raises': sum(1 for (o, _l) in runs if o[0] != 'ok'), 'nargs': len(args), 'source': src,
+                'old_raises': sum(1 for (o, l_) in runs if o[0] != 'ok' or refactor_flow.exception_leaves(l_, sel)),
+                'nargs': len(args), 'source': src,
                 'args_all': args})
     return res
 
